@@ -755,16 +755,21 @@ def observe(recipe, conf, want_canon=True, per_recipe_timeout=20, only=None, use
 
 
 def tree_fingerprint(pkg_dir):
-    """Digest of (path, size, mtime) of every source file of the tree under test."""
+    """Digest of the contents of every source file of the tree under test."""
     import os
 
     h = hashlib.sha1()
-    for root, dirs, files in sorted(os.walk(pkg_dir)):
+    for root, dirs, files in os.walk(pkg_dir):
         dirs.sort()
         for f in sorted(files):
             if f.endswith(".py"):
-                st = os.stat(os.path.join(root, f))
-                h.update(f"{os.path.relpath(os.path.join(root, f), pkg_dir)}:{st.st_size}:{st.st_mtime_ns};".encode())
+                path = os.path.join(root, f)
+                h.update(os.path.relpath(path, pkg_dir).encode() + b"\0")
+                try:
+                    with open(path, "rb") as fh:
+                        h.update(hashlib.sha1(fh.read()).digest())
+                except OSError:
+                    h.update(b"unreadable")
     return h.hexdigest()[:16]
 
 
